@@ -131,7 +131,9 @@ static Ctx& C(const std::string& id)
   return it->second;
 }
 
-static void reply(const std::string& s) { fputs("R ", stdout); fputs(s.c_str(), stdout); fputc('\n', stdout); }
+static std::string g_last_reply;
+static bool g_skip = false;
+static void reply(const std::string& s) { g_last_reply = s; fputs("R ", stdout); fputs(s.c_str(), stdout); fputc('\n', stdout); }
 
 static std::string perr(const ParseError& pe)
 {
@@ -256,6 +258,7 @@ static void resetAll()
   while (!g_ctx.empty()) freeCtx(g_ctx.begin()->first);
   g_safe.clear(); g_mon_events.clear(); g_mon_safety = false;
   g_budget = -1; g_steps = 0; g_interrupted = false; g_run_root = nullptr;
+  g_skip = false;
 }
 
 static void beginRun(Context * root, long budget)
@@ -272,6 +275,15 @@ static void endRun(Context * root)
 static void doOp(const std::vector<std::string>& f)
 {
   const std::string& op = f[0];
+  if (g_skip) { fputs("R skipped\n", stdout); return; }
+  if (op == "require")
+  {
+    // require PREFIX: unless the previous reply starts with PREFIX, every remaining op of the case is skipped
+    std::string last = g_last_reply;
+    if (last.compare(0, f[1].size(), f[1]) != 0) g_skip = true;
+    reply(g_skip ? "unmet" : "met");
+    return;
+  }
   if (op == "new")
   {
     Ctx c; c.out.open(); c.ctx = new Context(c.out.fd, c.out.fd);
